@@ -29,7 +29,7 @@ def directed(judge):
                                                                    {"a": "Freeze"}, {"a": "OptStep"}, {"a": "Forward", "x": "x1"}]})
                 elif judge == "C13":
                     out.append({"arch": arch, "prog": [q, {"a": "EnterCalib", "momentum": "m50", "streamline": True}, {"a": "EnterCalib", "momentum": "m90", "streamline": False},
-                                                       {"a": "CalibBatch", "batch": "b1"}, {"a": "RaiseIn", "batch": "b2", "k": 2}, {"a": "Forward", "x": "x1"},
+                                                       {"a": "CalibBatch", "batch": "b1"}, {"a": "LibCall"}, {"a": "RaiseIn", "batch": "b2", "k": 2}, {"a": "Forward", "x": "x1"}, {"a": "LibCall"},
                                                        {"a": "EnterCalib", "momentum": "m25", "streamline": False}, {"a": "ExitCalib"}, {"a": "Forward", "x": "x2"}]})
     return out
 
@@ -69,7 +69,7 @@ def module_cases(c):
 
 def body(c, judge):
     need = {"C08": ["Quantize", "Forward"], "C09": ["Freeze", "DeepCopy"], "C10": ["Save", "Load"], "C11": ["OptStep", "Forward"],
-            "C13": ["RaiseIn", "ExitCalib", "Forward"]}[judge]
+            "C13": ["RaiseIn", "ExitCalib", "Forward", "LibCall"]}[judge]
     dirs = directed(judge)
     if c.quick and len(dirs) > 400:
         import random
@@ -91,6 +91,9 @@ def body(c, judge):
         t, i = L.find_event(tr, lambda e: e["act"] == "Forward")
         t[i]["out_again"]["digest"] = "different"
         ctrls.append(("not-deterministic", t))
+        t, i = L.find_event(tr, lambda e: e["act"] == "LibCall")
+        t[i]["inputs_unchanged"] = False
+        ctrls.append(("library-call-modifies-input", t))
     elif judge == "C09":
         t, i = L.find_event(tr, lambda e: e["act"] == "Freeze")
         t[i]["out_after"][0]["digest"] = "x"
